@@ -5,6 +5,7 @@ verus! {
 //@include prelude/float_opaque.rs
 //@include prelude/std_assumed.rs
 //@struct file=src/algebra/csc/core.rs name=CscMatrix
+//@include units/inc/csc_colcount_specs.rs
 //@struct file=src/algebra/matrix_types.rs name=Adjoint rules=R12
 //@enum file=src/algebra/matrix_types.rs name=MatrixShape rules=R12 derive="PartialEq, Eq, Clone, Copy, Structural"
 //@enum file=src/algebra/matrix_types.rs name=MatrixTriangle rules=R12 derive="PartialEq, Eq, Clone, Copy, Structural"
@@ -23,7 +24,6 @@ pub proof fn lemma_rot_index(c: int, n: int)
 {
     vstd::arithmetic::div_mod::lemma_fundamental_div_mod_converse(c + n - 1, n, 1, c - 1);
 }
-pub open spec fn sum_upto(s: Seq<usize>, n: int) -> int decreases n { if n <= 0 { 0 } else { sum_upto(s, n - 1) + s[n - 1] } }
 
 impl CscMatrix<F> {
     pub open spec fn arrays_ok(&self) -> bool { self.rowval@.len() == self.nzval@.len() }
@@ -106,22 +106,8 @@ impl CscMatrix<F> {
                     proof { lemma_mono_chain(M.colptr@, i as int + 1, M.n as int); }
 //@end
 
-//@fn file=src/algebra/csc/utils.rs in="impl<T> CscMatrix<T>" name=colptr_to_colcount rules=R1
-//@contract
-    requires old(self).colptr@.len() == old(self).n + 1,
-        forall|i: int| 0 <= i < old(self).n ==> old(self).colptr@[i] <= #[trigger] old(self).colptr@[i + 1],
-    ensures final(self).colptr@.len() == old(self).colptr@.len(),
-        forall|i: int| 0 <= i < old(self).n ==> #[trigger] final(self).colptr@[i] == old(self).colptr@[i + 1] - old(self).colptr@[i],
-        final(self).colptr@[old(self).n as int] == 0,
-        final(self).rowval@ == old(self).rowval@, final(self).nzval@ == old(self).nzval@, final(self).n == old(self).n, final(self).m == old(self).m,
-//@loop 1
-        invariant self.n == old(self).n, self.m == old(self).m, self.colptr@.len() == self.n + 1,
-            self.rowval@ == old(self).rowval@, self.nzval@ == old(self).nzval@,
-            forall|k: int| 0 <= k < old(self).n ==> old(self).colptr@[k] <= #[trigger] old(self).colptr@[k + 1],
-            forall|k: int| 0 <= k < i ==> #[trigger] self.colptr@[k] == old(self).colptr@[k + 1] - old(self).colptr@[k],
-            forall|k: int| i <= k <= self.n ==> #[trigger] self.colptr@[k] == old(self).colptr@[k],
-//@end
 
+//@include units/inc/csc_colcount_fns.rs
 //@fn file=src/algebra/csc/utils.rs in="impl<T> CscMatrix<T>" name=count_diagonal_entries rules=R1 ret=r
 //@contract
     requires self.colptr@.len() == self.n + 1,
@@ -296,26 +282,6 @@ it
             }
 //@end
 
-//@fn file=src/algebra/csc/utils.rs in="impl<T> CscMatrix<T>" name=colcount_to_colptr rules=R1,zipidx:1=m
-//@contract
-    requires sum_upto(old(self).colptr@, old(self).colptr@.len() as int) <= usize::MAX,
-    ensures
-        final(self).m == old(self).m, final(self).n == old(self).n,
-        // colptr[c] becomes the number of entries in the columns before c (exclusive prefix sum of the counts)
-        final(self).colptr@.len() == old(self).colptr@.len(),
-        forall|c: int| 0 <= c < old(self).colptr@.len() ==> #[trigger] final(self).colptr@[c] == sum_upto(old(self).colptr@, c),
-        final(self).rowval@ == old(self).rowval@, final(self).nzval@ == old(self).nzval@,
-//@loop 1
-        invariant
-            r14_n1 == self.colptr@.len(), self.colptr@.len() == old(self).colptr@.len(),
-            self.rowval@ == old(self).rowval@, self.nzval@ == old(self).nzval@,
-            sum_upto(old(self).colptr@, old(self).colptr@.len() as int) <= usize::MAX,
-            currentptr == sum_upto(old(self).colptr@, r14_i1 as int),
-            forall|c: int| 0 <= c < r14_i1 ==> #[trigger] self.colptr@[c] == sum_upto(old(self).colptr@, c),
-            forall|c: int| r14_i1 <= c < self.colptr@.len() ==> #[trigger] self.colptr@[c] == old(self).colptr@[c],
-//@body_start 1
-            proof { lemma_sum_mono(old(self).colptr@, r14_i1 as int + 1, old(self).colptr@.len() as int); }
-//@end
 
 //@fn file=src/algebra/csc/utils.rs in="impl<T> CscMatrix<T>" name=fill_block rules=R1
 //@contract
@@ -1115,11 +1081,6 @@ pub proof fn lemma_count_row_le(rows: Seq<usize>, r: int, j: int)
     ensures 0 <= count_row(rows, r, j) <= j,
     decreases j,
 { if j > 0 { lemma_count_row_le(rows, r, j - 1); } }
-pub proof fn lemma_sum_mono(s: Seq<usize>, a: int, b: int)
-    requires 0 <= a <= b <= s.len(),
-    ensures sum_upto(s, a) <= sum_upto(s, b),
-    decreases b - a,
-{ if a < b { lemma_sum_mono(s, a, b - 1); } }
 pub proof fn lemma_mono_chain(s: Seq<usize>, a: int, b: int)
     requires 0 <= a <= b < s.len(), forall|k: int| 0 <= k < s.len() - 1 ==> s[k] <= #[trigger] s[k + 1],
     ensures s[a] <= s[b],
